@@ -1,8 +1,8 @@
 SPECIFICATION Spec
 CONSTANTS
-  MaxItems = 3
-  PtrOnly = FALSE
-  SetSrcOn = {1}
+  MaxItems = 2
+  PtrOnly = TRUE
+  SetSrcOn = {1, 3}
 VIEW View
 INVARIANTS EmitState
 CHECK_DEADLOCK FALSE
